@@ -94,14 +94,14 @@ func init() {
 		Funcs: fcNP("x/oracle/keeper.msgServer.UpdateParams", "x/oracle/keeper.msgServer.UpdateCyclelist", "x/registry/keeper.msgServer.UpdateDataSpec",
 			"x/registry/keeper.msgServer.RegisterSpec", "x/reporter/keeper.msgServer.UpdateParams", "x/bridge/keeper.msgServer.UpdateSnapshotLimit",
 			"x/dispute/keeper.msgServer.UpdateTeam", "x/mint/keeper.msgServer.Init", "x/oracle/keeper.msgServer.Tip", "x/bridge/keeper.msgServer.WithdrawTokens", "x/reporter/keeper.Keeper.HasMin",
-			"x/dispute/keeper.Keeper.PayDisputeFee", "x/dispute/keeper.msgServer.ProposeDispute", "x/dispute/keeper.msgServer.AddFeeToDispute", "x/dispute/keeper.msgServer.Vote"),
+			"x/dispute/keeper.Keeper.PayDisputeFee", "x/dispute/keeper.msgServer.ProposeDispute", "x/dispute/keeper.msgServer.AddFeeToDispute", "x/dispute/keeper.msgServer.Vote", "x/reporter/keeper.msgServer.WithdrawTip"),
 		Assumptions: []string{
 			"k.authority is the governance module address (set in app.go when the keepers are constructed)",
 			"bech32 decoding is modelled abstractly: AccAddressFromBech32(s) yields the account addr_str(s)",
 			"calls without specification (collections Walk/Clear, hooks, abi decoding) are havocked: results, memory reachable from their arguments, the store they operate on and everything their callbacks can write",
 		},
 		NotDecided: []string{
-			"the signer-only frame for the remaining message types (reporter handlers, bridge claim/attestation requests, dispute refunds and reward claims): proved so far are MsgTip, MsgWithdrawTokens, MsgProposeDispute and MsgAddFeeToDispute (only the signer, the staking pools and the dispute escrow change balance; the escrowed stake belongs to the disputed reporter's backers by design) and MsgVote (writes dispute state only)",
+			"the signer-only frame for the remaining message types (reporter handlers, bridge claim/attestation requests, dispute refunds and reward claims): proved so far are MsgTip, MsgWithdrawTokens, MsgWithdrawTip (only the signer's credit, the tips escrow and the staking pools), MsgProposeDispute and MsgAddFeeToDispute (only the signer, the staking pools and the dispute escrow change balance; the escrowed stake belongs to the disputed reporter's backers by design) and MsgVote (writes dispute state only)",
 			"SDK message types (bank send, staking) are not layer code",
 		},
 	})
@@ -189,12 +189,12 @@ func init() {
 		ID:    "C04",
 		Title: "Escrow accounts always cover what the chain says it owes",
 		Funcs: fcNP("x/oracle/keeper.msgServer.Tip", "x/oracle/keeper.Keeper.transfer", "x/oracle/keeper.Keeper.AllocateRewards", "x/reporter/keeper.Keeper.DivvyingTips",
-			"x/bridge/keeper.Keeper.ClaimDeposit", "x/bridge/keeper.Keeper.WithdrawTokens"),
+			"x/bridge/keeper.Keeper.ClaimDeposit", "x/bridge/keeper.Keeper.WithdrawTokens", "x/reporter/keeper.msgServer.WithdrawTip", "x/dispute/keeper.Keeper.PayDisputeFee"),
 		Assumptions: []string{
 			"per-operation conservation only: each function moves exactly the stated amounts between bank accounts and ledgers",
 		},
 		NotDecided: []string{
-			"the block-boundary invariants (oracle account == sum of open tips, tips escrow >= sum of credits, dispute account >= escrow) as inductive invariants over all handlers; Query.Amount bookkeeping in Tip; WithdrawTip; dispute account flows",
+			"the block-boundary invariants (oracle account == sum of open tips, tips escrow >= sum of credits, dispute account >= escrow) as inductive invariants over all handlers; dispute account flows beyond the fee payment (PayDisputeFee) and the pay-outs of C13; decided per operation: Tip adds to the round exactly what the oracle account received, WithdrawTip takes from the tips escrow exactly the whole loya it stakes and leaves the fraction credited",
 		},
 	})
 	reg(&PropDef{
@@ -270,7 +270,7 @@ func init() {
 		Funcs: fcNP("x/oracle/keeper.Keeper.WeightedMedian", "x/oracle/keeper.Keeper.WeightedMode", "x/oracle/keeper.Keeper.SetValue",
 			"x/oracle/keeper.Keeper.RotateQueries", "x/oracle/keeper.Keeper.GetCurrentQueryInCycleList", "x/oracle/keeper.Keeper.GetCyclelist", "x/oracle/keeper.Keeper.InitCycleListQuery",
 			"x/oracle/keeper.msgServer.UpdateCyclelist", "x/oracle/keeper.Keeper.ClearOldqueries", "x/oracle/keeper.Keeper.SetAggregatedReport", "x/oracle.EndBlocker", "x/dispute/keeper.Keeper.UpdateDispute",
-			"x/dispute.CheckOpenDisputesForExpiration", "x/dispute.CheckClosedDisputesForExecution", "x/dispute/keeper.Keeper.CloseDispute", "x/dispute/keeper.Keeper.AddDisputeRound",
+			"x/dispute.CheckOpenDisputesForExpiration", "x/dispute.CheckClosedDisputesForExecution", "x/dispute/keeper.Keeper.CloseDispute", "x/dispute/keeper.Keeper.AddDisputeRound", "x/reporter/keeper.Keeper.TrackStakeChange",
 			"x/mint.BeginBlocker", "x/mint.MintBlockProvision", "x/mint.SetPreviousBlockTime", "x/mint/keeper.Keeper.SendInflationaryRewards", "x/mint/keeper.Keeper.MintCoins", "x/mint/types.Minter.CalculateBlockProvision"),
 		Assumptions: []string{
 			"per-function: each block-processing function is shown not to fail or panic under a stated store invariant (its requires), and the writers under contract are shown to establish that invariant; the induction over all handlers and blocks is not carried",
@@ -288,7 +288,7 @@ func init() {
 		ID:    "C05",
 		Title: "The staked-token ledger is always backed by the staking pools",
 		Funcs: fcNP("x/reporter/keeper.Keeper.FeefromReporterStake", "x/reporter/keeper.Keeper.deductUnbondingDelegation", "x/reporter/keeper.Keeper.deductFromdelegation", "x/reporter/keeper.Keeper.undelegate",
-			"x/reporter/keeper.Keeper.ReturnSlashedTokens", "x/reporter/keeper.Keeper.FeeRefund", "x/reporter/keeper.Keeper.AddAmountToStake"),
+			"x/reporter/keeper.Keeper.ReturnSlashedTokens", "x/reporter/keeper.Keeper.FeeRefund", "x/reporter/keeper.Keeper.AddAmountToStake", "x/reporter/keeper.msgServer.WithdrawTip"),
 		Assumptions: []string{
 			"assumed contract on StakingKeeper.Delegate: with subtractAccount=false it moves coins only between the two staking pools; GetBondedValidators (raw store iterator) is a trusted read",
 			"assumed contracts on the staking keeper (x/reporter/types.StakingKeeper): Unbond returns the non-negative token amount it removed from the validator and moves no coins; unbonding entries have non-negative balances; Set/RemoveUnbondingDelegation change no bank balance",
@@ -297,7 +297,7 @@ func init() {
 		},
 		NotDecided: []string{
 			"per-backer records of a second fee payment for the same dispute (the earlier records are appended: needs a sum-over-concatenation lemma)",
-			"EscrowReporterStake is under contract for its record accounting only (C11); WithdrawTip is not under contract; for ReturnSlashedTokens / FeeRefund / AddAmountToStake the decided part is: every Delegate takes the bonded pool as token source with subtractAccount=false (matching the dispute module's transfer into the bonded pool), without a winning purse every backer gets back exactly what was taken, the record is consumed; the pro-rata amounts with a purse or a partial fee refund (at most one unit lost per entry) are not decided",
+			"EscrowReporterStake is under contract for its record accounting only (C11); WithdrawTip: the staked amount is delegated from the bonded source to a bonded validator and the same amount leaves the tips escrow for the bonded pool (that Delegate itself adds it to the ledger is the assumed staking contract); for ReturnSlashedTokens / FeeRefund / AddAmountToStake the decided part is: every Delegate takes the bonded pool as token source with subtractAccount=false (matching the dispute module's transfer into the bonded pool), without a winning purse every backer gets back exactly what was taken, the record is consumed; the pro-rata amounts with a purse or a partial fee refund (at most one unit lost per entry) are not decided",
 			"FeeRefund and AddAmountToStake index the list of bonded validators at 0 without a length check (a chain without bonded validators): panic obligation not claimed",
 			"the pool >= ledger invariant itself is the staking module's and is not modelled",
 		},
@@ -314,7 +314,7 @@ func init() {
 			"the byte-wise comparison of the saved and the current set (cdc.MustMarshal) is not modelled: the update rule is stated through the results of LastSavedValidatorSetStale and PowerDiff on the paths that call them",
 		},
 		NotDecided: []string{
-			"ordering of the set (descending power, then address): the sort's less closure dereferences members of an arbitrary permutation, which the sort specification cannot yet show non-nil; membership 'exactly the validators with a registered EVM address and non-zero power' is only proved as 'every member has non-zero power' (GetAllValidators and GetConsensusPower are unconstrained)",
+			"membership 'exactly the validators with a registered EVM address and non-zero power' is only proved as 'every member has non-zero power' (GetAllValidators and GetConsensusPower are unconstrained)",
 			"total power below 2^63 at the call of SetBridgeValidatorParams (needed for threshold = total*2/3 without wrap-around) is a precondition that CompareAndSetBridgeValidators cannot establish from the unconstrained staking results",
 			"strictly increasing checkpoint timestamps (needs block-time monotonicity and at most one checkpoint per block) and the contract's acceptance rule (EVM side)",
 		},
